@@ -8,7 +8,8 @@ import sys, os, json, shutil, subprocess, re
 V = os.path.dirname(os.path.dirname(os.path.abspath(__file__)))
 EVAL = "/tmp/wt/eval"
 # checks of other properties (or the thorough tier) that are also run for a seeded change, where its own property's quick check is not the one that sees it
-EXTRA = {"C06-m4": ["C12"], "C02-m4": ["C12"], "C03-m3": ["C13"], "C03-m4": ["C12"], "C20-m4": ["C08"], "C15-m4": ["C15@thorough"], "C16-m2": ["C08"], "C12-m2": ["C06"]}
+EXTRA = {"C06-m4": ["C12"], "C02-m4": ["C12"], "C03-m3": ["C13"], "C03-m4": ["C12"], "C04-m4": ["C12"], "C10-m4": ["C12"], "C16-m3": ["C13"],
+         "C16-m4": ["C11"], "C20-m4": ["C08"], "C18-m3": ["C12"], "C12-m3": ["C18"], "C15-m4": ["C15@thorough"], "C16-m2": ["C08"], "C12-m2": ["C06"], "C20-m3": ["C19"]}
 
 
 def sh(cmd, **kw):
@@ -66,6 +67,7 @@ def main():
             meta.update(dict(id=mid, breaks_property=prop, origin="written by a fresh sub-agent that saw only the property text and its own worktree",
                              confirmed=conf, confirmed_how="tools/mutant_confirm.sh in the sub-agent's scratch worktree: git apply, touch *.asm, make -j8 check (37 PASS), run_demo.sh with and without the patch",
                              evaluated_with="VERIF_REPO=<scratch worktree with the patch> ./check <Cxx> --tier <tier> for each entry of runs",
+                             rebased_onto_head=os.path.exists(os.path.join(out, "patch.orig.diff")), evaluated_on_repo_head=head,
                              runs=runs, detected_by_own_quick_check=runs[0]["detected"], detected=any(x["detected"] for x in runs)))
             json.dump(meta, open(os.path.join(out, "meta.json"), "w"), indent=1)
             print(mid, " ".join("%s@%s=%s" % (x["check"], x["tier"], "DET" if x["detected"] else "miss(rc%d)" % x["exit_code"]) for x in runs))
